@@ -548,6 +548,18 @@ def _r6(ctx):
                           ctx.where(b, s["sp"]),
                           "containment must compare (ip & mask) with the *network* address: the right-hand side is %s; a prefix "
                           "written with host bits (accepted by the loader) then matches no address at all" % show(rhs)[:80])
+        # the range form: network ..= broadcast contains ip. A half-open range leaves out the highest address of the prefix, which is an
+        # ordinary host in a /31 and the only one in a /32
+        for bb, tm in b.calls():
+            cn = callee_name(tm) or ""
+            if not (cn.endswith("::contains") and "ops::Range" in cn.replace("std::ops::range", "ops").replace("core::ops::range", "ops").replace("std::", "").replace("core::", "")):
+                continue
+            n += 1
+            ctx.saw(b)
+            tag = (b.impl_self or "").split("::")[-1]
+            inclusive = "RangeInclusive" in cn
+            ctx.check(inclusive, "R6", "contains:%s:%s" % (tag, "closed-range" if inclusive else "half-open-range"), ctx.where(b, tm["sp"]),
+                      "a prefix contains every address from its network address to its highest one inclusive; %s leaves the highest out" % cn)
     ctx.floor("R6", "prefix containment comparisons", n, 3)
     # all four family combinations dispatch to an implementation
     f = [x for x in P.bodies if "erbium::config::Prefix as erbium::config::Match<std::net::IpAddr>>::contains" in x]
